@@ -2,6 +2,7 @@ package nc
 
 import (
 	"fmt"
+	"go/types"
 	"sort"
 	"strings"
 
@@ -129,7 +130,7 @@ func (c *Ctx) errorDisciplineSites(fn *ssa.Function) (sites []errSite, nCalls in
 		}
 		for _, r := range succ {
 			n := len(r.Results)
-			if exIsCallResult(o.Of(r.Results[n-1]), ci) {
+			if exIsCallResult(o.Of(r.Results[n-1]), ci) || passedThrough(r.Results[n-1], ci, idx) {
 				continue // the error itself is handed on
 			}
 			start := PointOf(call)
@@ -311,6 +312,9 @@ func (c *Ctx) ruleErrorDisciplinePkgs(rule string, pkgs []string, tolerated map[
 		if f.Parent() != nil || !inPkg(f) || covered[f] {
 			continue
 		}
+		if !c.touchesState(f, 0, map[*ssa.Function]bool{}) {
+			continue // pure / read-only addition that no reference function calls
+		}
 		check(f, WithClosures(f))
 	}
 	c.scope = saved
@@ -403,4 +407,98 @@ func (c *Ctx) errHandledByFallback(fn *ssa.Function, call ssa.CallInstruction, f
 		}
 	}
 	return true, ""
+}
+
+// passedThrough: v is result k of a call g(..., err, ...) whose argument is the error result of ci, and every return
+// of the module function g hands back that very parameter as result k (`return countFailed(parse(resp))`, a logging /
+// counting wrapper around an error): the error is handed on, not dropped.
+func passedThrough(v ssa.Value, ci ssa.CallInstruction, errIdx int) bool {
+	k := 0
+	var outer *ssa.Call
+	switch x := v.(type) {
+	case *ssa.Extract:
+		outer, _ = x.Tuple.(*ssa.Call)
+		k = x.Index
+	case *ssa.Call:
+		outer = x
+	}
+	if outer == nil {
+		return false
+	}
+	g := outer.Call.StaticCallee()
+	if g == nil || g.Blocks == nil {
+		return false
+	}
+	isErrOfCi := func(a ssa.Value) bool {
+		if ex, ok := a.(*ssa.Extract); ok {
+			if c2, ok := ex.Tuple.(*ssa.Call); ok && ssa.CallInstruction(c2) == ci && ex.Index == errIdx {
+				return true
+			}
+		}
+		if c2, ok := a.(*ssa.Call); ok && ssa.CallInstruction(c2) == ci && errIdx == -1 {
+			return true
+		}
+		return false
+	}
+	for j, a := range outer.Call.Args {
+		if !isErrOfCi(a) || j >= len(g.Params) {
+			continue
+		}
+		all := true
+		for _, r := range Returns(g) {
+			if k >= len(r.Results) || r.Results[k] != ssa.Value(g.Params[j]) {
+				all = false
+			}
+		}
+		if all {
+			return true
+		}
+	}
+	return false
+}
+
+// touchesState: fn (with its closures and the module functions it calls, three levels) calls something that can change
+// persistent state or reach the network: a storage / Lightning / wallet-client interface or function, a SQL Exec, a
+// bolt write. A function new on the tree that does none of this - a formatter, a read-only report - is outside the
+// error-discipline rule when no reference function reaches it.
+func (c *Ctx) touchesState(fn *ssa.Function, depth int, seen map[*ssa.Function]bool) bool {
+	if seen[fn] || depth > 3 {
+		return false
+	}
+	seen[fn] = true
+	for _, g := range WithClosures(fn) {
+		for _, ci := range Calls(g) {
+			d := c.P.Describe(ci)
+			n := d.Name
+			switch {
+			case strings.HasPrefix(n, "database/sql.") && (strings.Contains(n, "Exec") || strings.Contains(n, "Begin") || strings.Contains(n, "Prepare")):
+				return true
+			case strings.Contains(n, "bbolt") && (strings.HasSuffix(n, ".Update") || strings.HasSuffix(n, ".Put") || strings.HasSuffix(n, ".Delete") || strings.HasSuffix(n, ".DeleteBucket") || strings.HasSuffix(n, ".Batch")):
+				return true
+			case strings.HasPrefix(n, "wallet/client.Post") || strings.HasPrefix(n, "net/http.Post") || strings.Contains(n, "net/http.(*Client)"):
+				return true
+			}
+			if d.Iface != nil {
+				recv := d.Iface.Type().(*types.Signature).Recv()
+				rt := ""
+				if recv != nil {
+					rt = recv.Type().String()
+				}
+				mn := d.Iface.Name()
+				readOnly := strings.HasPrefix(mn, "Get") || strings.HasPrefix(mn, "List") || strings.HasPrefix(mn, "Count")
+				if (strings.HasSuffix(rt, "storage.MintDB") || strings.HasSuffix(rt, "storage.WalletDB")) && !readOnly {
+					return true
+				}
+				if strings.HasSuffix(rt, "lightning.Client") {
+					return true
+				}
+			}
+			if callee := ci.Common().StaticCallee(); callee != nil && callee.Blocks != nil && c.moduleFn(callee) {
+				if c.touchesState(callee, depth+1, seen) {
+					return true
+				}
+			}
+		}
+	}
+	return false
 }
